@@ -18,7 +18,8 @@ CHECKS['C15'] = {
             'plan list are healthy. A case is non-trivial if it contained a dispatcher restart, or a VM that never boots was '
             'created, or a crunch-run crashed after setting state Running; distinct = distinct scenario seed. '
             'Verdict: VIOLATION only if container states, instance set and process tables are all unchanged for >=10 s '
-            '(stretched to 5x the fault-free 50-container run time on a busy machine) while the scheduler keeps reading the queue; '
+            '(stretched to 5x the fault-free 50-container run time on a busy machine) while the scheduler keeps reading the queue, a harness '
+            'heartbeat shows the process had the CPU (>=600 ticks/s) and probe round trips are shorter than SyncInterval/2 (else inconclusive); '
             'still changing at D=max(60 s, 100x fault-free time) is reported as inconclusive (exit 2).',
     'assumptions': [
         'test.StubDriver/test.StubVM/test.Queue stand in for the cloud, the VMs and the API server; the real container.Queue (API client) is not exercised',
